@@ -630,6 +630,9 @@ func runC12(c *CaseCtx) (res CaseResult) {
 	if c.Idx%35 == 10 {
 		return runC12SharedFailingOptions(c, r)
 	}
+	if c.Idx%35 == 12 {
+		return runC12FewCallOptions(c, r)
+	}
 	if c.Idx%35 == 17 {
 		return runC12ConvertTypes(c, r)
 	}
@@ -694,6 +697,13 @@ func runC12(c *CaseCtx) (res CaseResult) {
 	if defShared >= 0 {
 		defOpts = append(defOpts, sharedInputOpt(defShared, r))
 	}
+	// 0-7 further (harmless, repeated) default options: how much spare
+	// capacity the library's own copy of the defaults ends up with depends
+	// on their number
+	for k := (c.Idx / 3) % 8; k > 0; k-- {
+		defOpts = append(defOpts, am.FuncName("shared-target"))
+	}
+	res.max("max_default_options_of_the_shared_target", int64(len(defOpts)))
 	t, err := w.Build(-1, s.Target, r, defOpts...)
 	if err != nil {
 		res.Skip = "instantiate"
